@@ -95,6 +95,39 @@ pub fn gen_cases(rng: &mut impl rand::RngCore, n_random: usize) -> Vec<(String, 
         a.w.msg_id = Fr::from(id);
         out.push((format!("limit={limit}|id={id}"), a));
     }
+    // coincidences between inputs and intermediate signals: a path element equal to the node computed so far (the same
+    // commitment registered at both children, or equal subtrees further up) makes the selector's difference term
+    // zero; with either direction bit. Also inputs equal to each other.
+    for k in [0usize, 1, 2, 10, 19] {
+        for bit in [0u8, 1] {
+            let mut a = base(rng);
+            a.w.bits[k] = bit;
+            a.idx[k] = Fr::from(bit as u64);
+            let mut node = crate::rlnx::rate_commitment_ref(&a.w.secret, &a.w.limit);
+            for j in 0..k {
+                node = if a.w.bits[j] == 0 { crate::refhash::poseidon_ref(&[node, a.w.path[j]]) } else { crate::refhash::poseidon_ref(&[a.w.path[j], node]) };
+            }
+            a.w.path[k] = node;
+            out.push((format!("pathElements[{k}]=node-so-far|bit={bit}"), a));
+        }
+    }
+    {
+        let mut a = base(rng);
+        a.w.ext = a.w.secret;
+        out.push(("externalNullifier=identitySecret".into(), a));
+        let mut a = base(rng);
+        a.w.x = a.w.ext;
+        out.push(("x=externalNullifier".into(), a));
+        let mut a = base(rng);
+        a.w.path[0] = a.w.secret;
+        out.push(("pathElements[0]=identitySecret".into(), a));
+        let mut a = base(rng);
+        let p0 = a.w.path[0];
+        for p in a.w.path.iter_mut() {
+            *p = p0;
+        }
+        out.push(("pathElements[*]=equal".into(), a));
+    }
     for (pl, bits) in bit_patterns(depth, rng) {
         let mut a = base(rng);
         a.w.bits = bits.clone();
